@@ -40,9 +40,9 @@ pub static SPEC: Spec = Spec {
         "core_kind:writer-with-cleared",
     ],
     rule: "a case = one core (empty, 1 block, single-root 2^k, multi-root, with cleared blocks, reopened, 1000 blocks; replicas: empty, upgraded-only, sparse, complete, reopened) x one mode: request tuples with every field of block/hash/seek/upgrade drawn from {0,1,L-1,L,L+1,2L-1,2L,2L+1,2^32-1,2^32,2^40-1} (L = length, byte length or node count) as cross products (block x upgrade, hash x upgrade, seek x block x upgrade) plus random full tuples; proofs: the C04 single-field alteration set over honest proofs, plus structurally arbitrary proofs (random sections, 0-8 random nodes with boundary indices, random/empty/short signatures, zero-length upgrades); every create_proof / verify_and_apply_proof call runs under catch_unwind with a storage-operation runaway guard; outcome must be a value or an error; a refused proof leaves info() unchanged; afterwards info, a read, an honest request/proof round trip and (writers) an append must behave per the model; the same cases run in an overflow-checked debug build (thorough, and a reduced slice in quick); evaluations = calls; distinct = (core kind, request/proof hash)",
-    assumptions: &["numeric fields below 2^40 (the property's bound)", "hangs are decided by the per-case process watchdog (40 s for cases that take < 3 s; runaway allocation hits the worker's 6 GB address-space limit) and confirmed by a solo re-run"],
+    assumptions: &["numeric fields below 2^40 (the property's bound)", "hangs are decided by the per-case process watchdog (90 s for cases that take < 3 s; runaway allocation hits the worker's 6 GB address-space limit) and confirmed by a solo re-run"],
     exhaustive_note: "cross products block x upgrade, hash x upgrade, seek x block x reduced-upgrade over the boundary value sets are complete per directed core",
-    hang_secs: 40,
+    hang_secs: 90,
 };
 
 const N_CORES: u64 = 15;
